@@ -61,6 +61,15 @@ package abci
 //@ func genericPruner.Prune
 //@   props C06
 //@   requires p != nil && latestVersion <= 9223372036854775807
-//@   precall db/api\.NodeDB\)\.Prune$ :: latestVersion >= old(p.keepN) && argAs[uint64](0) < preserveFrom && int(preserveFrom) + int(old(p.keepN)) == int(latestVersion) && ufr[error]("canPrune", p, int64(argAs[uint64](0))) == nil
+//@   precall db/api\.NodeDB\)\.Prune$ :: latestVersion >= old(p.keepN) && argAs[uint64](0) < preserveFrom && int(preserveFrom) + int(old(p.keepN)) == int(latestVersion) && (forall j int :: 0 <= j && j < len(p.handlers) ==> ufr[error]("CanPruneConsensus", p.handlers[j], int64(argAs[uint64](0))) == nil)
 //@   precall db/api\.NodeDB\)\.Sync$ :: true
+//@   loop 1 invariant p.keepN == old(p.keepN)
 //@   note a version is handed to NodeDB.Prune only if it is more than keepN versions behind the latest one and every registered prune handler allowed it
+
+//@ func genericPruner.canPrune
+//@   props C06
+//@   requires p != nil
+//@   modifies nothing
+//@   loop 1 invariant forall j int :: 0 <= j && j < idx() ==> ufr[error]("CanPruneConsensus", p.handlers[j], v) == nil
+//@   ensures err == nil ==> (forall j int :: 0 <= j && j < len(p.handlers) ==> ufr[error]("CanPruneConsensus", p.handlers[j], v) == nil)
+//@   note nil is returned only if every registered handler was asked about exactly this version and answered nil; a handler's answer is treated as a function of (handler, version) (noeffect.txt pure:CanPruneConsensus)
